@@ -25,7 +25,7 @@ def run(tier, rep):
     rep.add_tlc("MC_JSVM(with calls on an ancestor)", r2)
     rep.notes.append("model with javascript_with_context on an ancestor and the node-JSON cache on: Isolated %s" % ("violated (NodeCurrent)" if r2.violated else "holds"))
     tr = os.path.join(vlib.scratch(), "c20.trace.ndjson")
-    recs, _ = vlib.run_vh(["c20-drive", tr, "3000" if thorough else "400", table], timeout=3000)
+    recs, _ = vlib.run_vh(["c20-drive", tr, "30000" if thorough else "400", table], timeout=3000)
     for x in recs:
         if x.get("kind") == "violation":
             rep.violation(x)
